@@ -101,7 +101,7 @@ func init() {
 		Level: "exploration",
 		Cases: func(tier string) int { return tierN(tier, 1200, 60000) },
 		Rule: "case = one history (10-45 ops quick, up to 100 thorough) rich in commits without writes, empty and one-leaf trees, pruning, rollbacks to a version, reopenings at the latest or an OLDER version followed by re-commits (identical and different writes), initial version unset/1/5/63/64/1000000, invalid version arguments (12%). " +
-			"After every step: commit numbering vs model; for every v in {0,1,first-2..latest+1}: VersionExists, AvailableVersions membership, GetImmutable, GetLatestVersion, GetVersioned outside the range, all on the live handle AND on a freshly opened handle (reopen), plus LoadVersion(v) on a fresh handle; a re-commit of an existing version number must succeed iff the reference tree R says the root hash is identical, and a rejected re-commit or rejected load must leave the raw store byte-identical and the tree usable. " +
+			"After every step: commit numbering vs model; for every v in {0,1,first-2..latest+1}: VersionExists, AvailableVersions membership, GetImmutable, GetLatestVersion, GetVersioned outside the range, all on the live handle AND on a freshly opened handle (reopen), plus LoadVersion(v) on a fresh handle; a re-commit of an existing version number must succeed iff the reference tree R says the root hash is identical, a rejected re-commit or rejected deletion must leave the raw store byte-identical, and after every rejected request (load of a missing version, rollback to one, different re-commit, deletion of the latest) the same handle must answer the full model read battery of its working state incl. uncommitted writes (\"leaves the tree usable\") and goes on with the history. " +
 			"distinct = hash(config, ops); non-trivial = >=3 commits and >=1 of {prune, rollback-to-version, load of an older version, re-commit of an existing version}.",
 		Assumptions: []string{"model M for the version range; reference tree R decides whether a re-commit is identical", "LoadVersion(v<=0) means 'latest' (library convention)"},
 		Run: func(c *fw.Ctx) {
@@ -173,6 +173,13 @@ func init() {
 				} else {
 					checkBookkeeping(e, h, "reopened", pk, true)
 				}
+				if out.Expect.Fail && out.Err != nil {
+					// "... fails and leaves the tree usable": after a rejected load / re-commit / deletion the
+					// working tree (incl. its uncommitted writes) still answers every read as before, and
+					// goes on to commit them (the following steps of the history)
+					e.CheckReads(e.T, e.M.Work, "work-after-rejected", v1x.Probes(pl.Universe, e.M.Work))
+					c.Obs("usable_after_rejected_checks", 1)
+				}
 				c.State(e.AbstractState() + fmt.Sprint(e.M.First > 1))
 				if len(c.Res.Violations) > 0 {
 					break
@@ -182,7 +189,7 @@ func init() {
 			c.Res.Nontrivial = saves >= 3 && special >= 1
 		},
 		Floor: func(obs map[string]int, evals, nontrivial int) string {
-			if obs["version_queries"] < 10000 || obs["recommit_identical"] < 5 || obs["recommit_different_rejected"] < 5 || obs["rejected_requests"] < 20 {
+			if obs["version_queries"] < 10000 || obs["recommit_identical"] < 5 || obs["recommit_different_rejected"] < 5 || obs["rejected_requests"] < 20 || obs["usable_after_rejected_checks"] < 20 {
 				return fmt.Sprintf("too few observations: %v", obs)
 			}
 			return ""
